@@ -39,7 +39,6 @@ OPEN_STATEMENTS = [
     'get_interaction_operator / get_quadratic_hamiltonian / get_diagonal_coulomb_hamiltonian: no theorem (they compose '
     'normal_ordered, property C03, with a scatter loop); soundness and the round trip '
     'get_fermion_operator(convert(A)) == normal_ordered(A) are covered by correspondence + Spec oracle only',
-    'get_fermion_operator(PolynomialTensor) (tensor_denote_iter) and __getitem__: correspondence + Spec oracle only',
     'get_majorana_operator / get_fermion_operator(MajoranaOperator) as algebra homomorphisms: proved for the generators '
     '(all modes, all basis states); products and sums rely on C01 and are covered by the Spec oracle',
     'get_quad_operator / get_boson_operator: correspondence + Spec oracle only (hbar in {1/2, 2, 8})',
